@@ -736,19 +736,38 @@ func checkC15(c *Check) {
 		c.Hold("R6", "AuthorizeEmailUse:equality-only", ra.FI.Decl.Pos(), !f && entObj != nil && addrObj != nil, "the entitlement lookup can accept without an equality between an entry and the address / its domain / \"*\" (e.g. a suffix or prefix match admits foreign addresses that merely end with an entitled one): "+ra.F.Describe(path))
 	}
 
+	// ---- R9: the normalisers are functions. Whether an authenticated name is entitled to an address is decided on the
+	// normalised forms; every normaliser that can be configured (authz.NormalizeFuncs) answers from its argument alone.
+	// A cache shared by the case-folding and the case-preserving profile (keyed by the address only) makes the answer for
+	// `Alice@…` under one profile depend on whether the other profile was asked first – a failed login attempt is enough.
+	c.Rule("R9", "every configurable normaliser (authz.NormalizeFuncs: auto, PRECIS profiles, …) is pure inside maddy: no package-level mutable state, cache, clock or environment in its call cone", 3)
+	for _, nf := range [][3]string{{"internal/authz", "", "NormalizeAuto"}, {"framework/address", "", "PRECISFold"}, {"framework/address", "", "PRECIS"}} {
+		fi := c.P.Func(nf[0], nf[1], nf[2])
+		if fi == nil {
+			c.Fail("R9", nf[2], token.NoPos, "anchor unresolved")
+			continue
+		}
+		ok, msg, pos := pureCone(c, fi)
+		if pos == token.NoPos {
+			pos = fi.Decl.Pos()
+		}
+		c.Hold("R9", fi.Pkg.Types.Name()+"."+nf[2]+":pure", pos, ok, nf[2]+" "+msg+": the same name can normalise differently depending on earlier calls – e.g. a case-preserving set-up treats `Alice@…` as `alice@…` after any case-folding lookup of that spelling, and the attacker who owns `alice@…` may send as `Alice@…`")
+	}
+
 	// ---- R8: the check is asked. authorize_sender is usually configured where relaying happens – in a destination
 	// block; its state is then created lazily, at the first recipient of that block, and sees the envelope sender only
 	// through the pipeline's replay of the sender stage. The replay happens before the state is registered, so that a
 	// refusal is repeated for the next recipient (a registered state skips the replay: the second RCPT would be
 	// accepted and the message relayed under the forged sender), and the stage functions record what to replay on
 	// every path. Those are C06's rules R4 / R4d, a clause of this property as well.
-	c.Rule("R8", "the pipeline asks a lazily created check state about the sender before registering it, for every recipient block, and records the sender stage for that replay on every path (C06.R4, C06.R4d)", 2)
+	c.Rule("R8", "the pipeline asks a lazily created check state about the sender before registering it, for every recipient block, and records the sender stage for that replay on every path; every recipient block a recipient was routed to is registered for the body stage (C06.R4, R4d, R1c)", 3)
 	sub := newCheck("C06", c.P, c.Tier)
 	sub.Rule("R4", "", 0)
 	sub.Rule("R4d", "", 0)
+	sub.Rule("R1c", "", 0)
 	c06ReplayOnly(sub)
 	for _, o := range sub.obs {
-		if o.Rule == "R4" || o.Rule == "R4d" {
+		if o.Rule == "R4" || o.Rule == "R4d" || o.Rule == "R1c" {
 			c.Hold("R8", o.Rule+":"+o.Key, o.posRaw, o.OK, o.Msg)
 		}
 	}
